@@ -14,9 +14,15 @@
 (*   Bit     hi lo src outs rep             Composite/Get*/Set* of a width *)
 (*   Ip      a outs rep [ref]               the IPv4 conversions of a      *)
 (*   IpParse t outs rep                     ToBytes(t), t a readable text  *)
+(*   Scribble fam <key fields> f before after   the caller overwrote slice *)
+(*           f of an evaluation of that key ("input": the slice it passed) *)
+(*   Held    fam <key fields> outs   slices of an earlier evaluation, kept  *)
+(*           untouched by the caller, read again                           *)
 (* Every event carries `i`, its position in the history.                   *)
 (* `rep`: the records returned by further evaluations of the same input    *)
-(* (the same goroutine again, two other goroutines concurrently): each     *)
+(* (the same goroutine again, two other goroutines concurrently; gen conc:  *)
+(* every DISTINCT record any of `nrep` evaluations by many goroutines, each *)
+(* working through inputs of its own, returned): each                      *)
 (* must equal `outs`.  The same input met again later in the history must  *)
 (* return what the memo holds.  `ref`: what the harness's transliteration  *)
 (* of the reference operators (used by the sweeps) computes; it must agree *)
@@ -39,6 +45,7 @@ TraceReset == Step("Reset") /\ memo' = <<>>
 
 RepOK(e) == /\ Has(e, "outs") /\ Has(e, "rep")
             /\ \A i \in 1..Len(e.rep) : e.rep[i] = e.outs
+            /\ Has(e, "nrep") => e.nrep >= Len(e.rep)
 \* evaluated after the step's Eval action holds, i.e. when e.outs IS the reference record
 RefOK(e) == Has(e, "ref") => \A f \in DOMAIN e.ref : f \in DOMAIN e.outs /\ e.ref[f] = e.outs[f]
 
@@ -62,11 +69,30 @@ TraceIp == /\ Step("Ip")
 TraceIpParse == /\ Step("IpParse")
                 /\ LET e == Trace[l] IN RepOK(e) /\ EvalIpParse(e.t, e.outs) /\ RefOK(e)
 
+\* the key of the evaluation a Scribble / Held event refers to (fam + the family's argument fields)
+HasAll(e, fs) == \A f \in fs : Has(e, f)
+KeyOK(e) == /\ Has(e, "fam")
+            /\ CASE e.fam = "bytes"   -> HasAll(e, {"arg", "seed", "plen"})
+                 [] e.fam = "ip"      -> Has(e, "a")
+                 [] e.fam = "ipparse" -> Has(e, "t")
+                 [] OTHER -> FALSE            \* the other families neither take nor return slices
+KeyOf(e) == CASE e.fam = "bytes"   -> <<"bytes", <<e.arg, e.seed, <<e.plen>>>>>>
+              [] e.fam = "ip"      -> <<"ip", <<e.a>>>>
+              [] e.fam = "ipparse" -> <<"ipparse", <<e.t>>>>
+TraceScribble == /\ Step("Scribble")
+                 /\ LET e == Trace[l] IN
+                      /\ KeyOK(e) /\ HasAll(e, {"f", "before", "after"})
+                      /\ Scribble(KeyOf(e), e.f, e.before, e.after)
+TraceHeld == /\ Step("Held")
+             /\ LET e == Trace[l] IN
+                  /\ KeyOK(e) /\ Has(e, "outs") /\ DOMAIN e.outs # {}
+                  /\ Held(KeyOf(e), e.outs)
+
 Families == {"bytes", "long", "int", "hexa", "hexadec", "bit", "ip", "ipparse"}
 InvAll == \A k \in DOMAIN memo : k[1] \in Families
 
 TraceNext == (TraceReset \/ TraceBytes \/ TraceLong \/ TraceInt \/ TraceHexa \/ TraceHexaDec
-              \/ TraceBit \/ TraceIp \/ TraceIpParse) /\ InvAll'
+              \/ TraceBit \/ TraceIp \/ TraceIpParse \/ TraceScribble \/ TraceHeld) /\ InvAll'
 
 TraceSpec == TraceInit /\ [][TraceNext]_tvars
 
